@@ -419,6 +419,21 @@ func C09(c *hx.Ctx) {
 			out, err, p = readAllSafe(r, 512, 0)
 		}
 		_ = out
+		// a caller that reads again after the failure must not be told that the stream ended
+		// cleanly ("never a clean end of stream"); three more Reads
+		var laterEOF bool
+		if p == nil && err != nil && r != nil && errors.Is(err, errSourceFault) {
+			safely(func() {
+				buf := make([]byte, 512)
+				for k := 0; k < 3 && !laterEOF; k++ {
+					n, e := r.Read(buf)
+					laterEOF = n == 0 && e == io.EOF
+					if n == 0 && e == nil {
+						break
+					}
+				}
+			})
+		}
 		sig := func(kind string) map[string]string {
 			m := map[string]string{"side": "reader", "kind": kind, "format": j.format, "together": fmt.Sprint(j.together)}
 			if j.single {
@@ -434,6 +449,8 @@ func C09(c *hx.Ctx) {
 		switch {
 		case p != nil:
 			c.Violation(sig("panic"), fmt.Sprintf("%s: source fails at offset %d: panic %v", j.name, j.k, p), replay)
+		case laterEOF:
+			c.Violation(sig("clean-end-after-source-error"), fmt.Sprintf("%s: source fails (for good) at offset %d of %d; the reader reports the error once and a clean end of stream on a later Read", j.name, j.k, len(j.data)), replay)
 		case atEnd && !j.together && !src.delivered:
 			// the reader never asked for more than the stream: nothing failed from its point of view
 			if err != nil {
